@@ -17,7 +17,7 @@ VARIABLES call, conv, pc, legsLeft, reply, result, flavour
 mvars == <<call, conv, pc, legsLeft, reply, result, flavour>>
 
 Ev(r) == r
-Connect(p) == [ev |-> "connect", port |-> p]
+Connect(p) == [ev |-> "connect", port |-> p, host |-> "dc"]
 Close == [ev |-> "close"]
 BindEv(kind, ctxs, at, lvl, sign, complete) ==
   [ev |-> kind, flags |-> IF sign THEN 7 ELSE 3, ctxs |-> ctxs, authType |-> at, authLevel |-> lvl, sign |-> sign,
@@ -32,7 +32,7 @@ GetKeyEv(c) ==
       sd |-> c.sd, rkid |-> c.rkid, l0 |-> rq[1], l1 |-> rq[2], l2 |-> rq[3], cbEqMaxc |-> TRUE, padsZero |-> TRUE,
       vtPresent |-> TRUE, vtOffsetOK |-> TRUE, vtCmds |-> ExpectedVt, vtEndsAtStubEnd |-> TRUE]
 
-Calls == {[op |-> o, pos |-> p, l0n |-> l0, now |-> n, kind |-> k, proto |-> pr, legs |-> lg, rkid |-> rk, sd |-> "sd", isdPort |-> 49664,
+Calls == {[op |-> o, pos |-> p, l0n |-> l0, now |-> n, kind |-> k, proto |-> pr, legs |-> lg, rkid |-> rk, sd |-> "sd", isdPort |-> 49664, host |-> "dc", qname |-> "none",
            dcSign |-> ds,
            l0 |-> IF o = "unprotect" THEN l0 ELSE -1, l1 |-> IF o = "unprotect" THEN p[1] ELSE -1, l2 |-> IF o = "unprotect" THEN p[2] ELSE -1] :
             o \in {"protect", "unprotect"}, p \in Positions, l0 \in {1, 2}, n \in NowPositions, k \in {"seed", "pub"},
